@@ -213,7 +213,9 @@ func randomScript(r *rand.Rand, stub bool) []stepT {
 		case x < 88:
 			steps = append(steps, stepT{Kind: "cmd", Arg: "ucinewgame"})
 		case x < 93:
-			steps = append(steps, stepT{Kind: "cmd", Arg: []string{"", "xyzzy", "setoption name Foo value 1", "debug on", "ponderhit", "  isready", "register later", "\t", "isready now"}[r.Intn(9)]})
+			steps = append(steps, stepT{Kind: "cmd", Arg: []string{"", "xyzzy", "setoption name Foo value 1", "debug on", "ponderhit", "  isready", "register later", "\t", "isready now",
+				"setoption name Hash value 1", "setoption name Hash value 0", "setoption name Depth value 2", "setoption name Depth value 0",
+				"setoption name Noise value 10", "setoption name OwnBook value false", "setoption name Hash", "setoption"}[r.Intn(17)]})
 		default:
 			steps = append(steps, stepT{Kind: "pause", D: r.Intn(3)})
 		}
